@@ -260,7 +260,7 @@ fn family_c02(ctx: &mut Ctx) {
     }
     // (2b) multi-block shards (structured payloads: zero blocks inside non-zero shards) on every engine
     for (ei, e) in engines.iter().enumerate() {
-        for (rate, k, r, sb) in [("high", 6usize, 2usize, 128usize), ("low", 3, 5, 192), ("high", 9, 4, 256), ("low", 4, 9, 130)] {
+        for (rate, k, r, sb) in [("high", 6usize, 2usize, 128usize), ("low", 3, 5, 192), ("high", 9, 4, 256), ("low", 4, 9, 130), ("high", 5, 3, 1026), ("low", 3, 5, 1150)] {
             let dr = ops::default_rate_of(k, r).unwrap_or("none");
             let kinds = ops::kinds_for(rate, dr, e);
             let kd = kinds[ei % kinds.len()];
@@ -321,6 +321,41 @@ fn family_c02(ctx: &mut Ctx) {
             let kd = *ops::kinds_for(rate, dr, e).choose(&mut rng).unwrap();
             enc_event(ctx, e, kd, k, r, &orig, Some(&[i]), false);
         }
+    }
+    // (3b) thousands of shards with multi-block / odd shard sizes: sparse data (non-zero originals at both ends, around
+    //      every chunk edge and at random places), recovery shards sampled
+    let nbig = if ctx.thorough { 24 } else { 6 };
+    for t in 0..nbig {
+        let (k, r) = match t % 6 {
+            0 => (rng.gen_range(1000..5000), rng.gen_range(100..1000)),
+            1 => (rng.gen_range(100..1000), rng.gen_range(1000..5000)),
+            2 => (4097, 1023),
+            3 => (1023, 4097),
+            4 => (3 * 512 + 7, 511),
+            _ => (rng.gen_range(2000..9000), rng.gen_range(2000..9000)),
+        };
+        let rate = if t % 2 == 0 { "high" } else { "low" };
+        if !crate::dut::supports_rate(rate, k, r) {
+            continue;
+        }
+        let dr = ops::default_rate_of(k, r).unwrap_or("none");
+        let m = if rate == "high" { r.next_power_of_two() } else { k.next_power_of_two() };
+        let sb = *[64usize, 66, 130, 192, 6].choose(&mut rng).unwrap();
+        let mut nz: BTreeSet<usize> = [0, 1, m - 1, m, m + 1, 2 * m - 1, 2 * m, k - 2, k - 1, k / 2, (k / m) * m, ((k / m) * m).saturating_sub(1)]
+            .into_iter()
+            .filter(|i| *i < k)
+            .collect();
+        for _ in 0..6 {
+            nz.insert(rng.gen_range(0..k));
+        }
+        let nz: Vec<usize> = nz.into_iter().collect();
+        let mut orig = vec![vec![0u8; sb]; k];
+        for i in &nz {
+            orig[*i] = util::payload(ctx.seed, 0x3B, (*i as u64) << 8 | t as u64, sb);
+        }
+        let e = *engines.iter().filter(|e| **e != "naive").collect::<Vec<_>>().choose(&mut rng).unwrap();
+        let kd = *ops::kinds_for(rate, dr, e).choose(&mut rng).unwrap();
+        enc_event(ctx, e, kd, k, r, &orig, Some(&nz), false);
     }
     // (4) ancestor crate, sizes multiple of 64
     let n = if ctx.thorough { 200 } else { 30 };
@@ -522,7 +557,7 @@ fn family_c01(ctx: &mut Ctx) {
                     continue;
                 }
                 let dr = ops::default_rate_of(k, r).unwrap_or("none");
-                let sb = *[2usize, 64, 66, 130].choose(&mut rng).unwrap();
+                let sb = *[2usize, 64, 66, 130, 2, 66, 1026, 1150].choose(&mut rng).unwrap();
                 let orig = originals(ctx.seed, ctx.counter, k, sb);
                 let rec = crate::dut::ref_encode(rate, k, r, &orig);
                 for pat in patterns(&mut rng, k, r, 3) {
@@ -554,6 +589,32 @@ fn family_c01(ctx: &mut Ctx) {
             dec_event(ctx, e, kd, k, r, &orig, &rec, &pat, &[0, k / 2, k - 1, k, 65536]);
         }
     }
+    // thousands of shards with multi-block / odd shard sizes
+    let nbig = if ctx.thorough { 30 } else { 6 };
+    for t in 0..nbig {
+        let (k, r) = match t % 6 {
+            0 => (rng.gen_range(1000..5000), rng.gen_range(100..1000)),
+            1 => (rng.gen_range(100..1000), rng.gen_range(1000..5000)),
+            2 => (4097, 1023),
+            3 => (1023, 4097),
+            4 => (3 * 512 + 7, 511),
+            _ => (rng.gen_range(2000..6000), rng.gen_range(2000..6000)),
+        };
+        let rate = if t % 2 == 0 { "high" } else { "low" };
+        if !crate::dut::supports_rate(rate, k, r) {
+            continue;
+        }
+        let dr = ops::default_rate_of(k, r).unwrap_or("none");
+        let sb = *[64usize, 66, 130, 192, 6].choose(&mut rng).unwrap();
+        let orig = originals(ctx.seed, ctx.counter, k, sb);
+        let rec = crate::dut::ref_encode(rate, k, r, &orig);
+        let pats = patterns(&mut rng, k, r, 1);
+        for pat in pats.into_iter().skip(1).take(if ctx.thorough { 3 } else { 2 }) {
+            let e = *engines.iter().filter(|e| **e != "naive").collect::<Vec<_>>().choose(&mut rng).unwrap();
+            let kd = *ops::kinds_for(rate, dr, e).choose(&mut rng).unwrap();
+            dec_event(ctx, e, kd, k, r, &orig, &rec, &pat, &[0, k - 1, k, 65535]);
+        }
+    }
     // envelope boundary at maximum loss
     for (rate, k, r) in boundary_configs(ctx.thorough) {
         let dr = ops::default_rate_of(k, r).unwrap_or("none");
@@ -574,8 +635,9 @@ fn family_c03(ctx: &mut Ctx) {
     let mut rng = util::rng(ctx.seed, 3);
     let mut cfgs: Vec<(&str, usize, usize, usize)> = vec![
         ("high", 3, 2, 2), ("low", 2, 3, 66), ("high", 5, 3, 130), ("low", 3, 5, 64), ("high", 9, 4, 34), ("low", 4, 9, 192),
-        ("high", 17, 16, 6), ("low", 16, 17, 62), ("high", 70, 13, 2), ("low", 13, 70, 4), ("high", 128, 32, 64), ("low", 32, 128, 64),
+        ("high", 17, 16, 6), ("low", 16, 17, 62), ("high", 8, 4, 1026), ("low", 4, 8, 3000), ("high", 70, 13, 2), ("low", 13, 70, 4), ("high", 128, 32, 64), ("low", 32, 128, 64),
         ("high", 300, 200, 2), ("low", 200, 300, 2), ("high", 1000, 100, 2), ("low", 100, 1000, 2),
+        ("high", 3000, 1000, 66), ("low", 1000, 3000, 130), ("high", 1543, 511, 64),
     ];
     let extra = if ctx.thorough { 80 } else { 8 };
     for _ in 0..extra {
@@ -593,9 +655,41 @@ fn family_c03(ctx: &mut Ctx) {
         cfgs.push(("high", 8192, 8192, 2));
     }
     for (ci, (rate, k, r, sb)) in cfgs.into_iter().enumerate() {
-        let sb = if (k + r) * sb > 40000 { 2 } else { sb };
-        ctx.group = Some(ci as i64);
         let ded = Some(if rate == "high" { Kind::High } else { Kind::Low });
+        if (k + r) * sb > 40000 {
+            // large rounds: one digest per engine over all recovery shards (the closed form for such shapes is
+            // checked on sparse data by C02; here the engines must agree bit for bit on dense data)
+            let orig = originals(ctx.seed, ctx.counter, k, sb);
+            let mut digs = Obj::new();
+            let mut rec0: Option<Vec<Vec<u8>>> = None;
+            for e in &engines {
+                ops::poison_on(ctx.seed ^ ctx.counter);
+                let res = with_engine!(*e, E, { encode_round::<E>(ded, k, r, &orig) });
+                ctx.counter += 1;
+                match res {
+                    Ok(rec) => {
+                        let parts: Vec<&[u8]> = rec.iter().map(Vec::as_slice).collect();
+                        digs = digs.str(e, &format!("{}:{:016x}", rec.len(), util::fnv_many(parts)));
+                        if rec0.is_none() {
+                            rec0 = Some(rec);
+                        }
+                    }
+                    Err(f) => digs = digs.str(e, &format!("FAIL {f}")),
+                }
+            }
+            ctx.trace.line(&Obj::new().str("ev", "xenc").str("rate", rate).us("k", k).us("r", r).us("sb", sb).raw("digs", &digs.done()).done());
+            if let Some(rec) = rec0 {
+                if rec.len() == r {
+                    let pats = patterns(&mut rng, k, r, 1);
+                    let pat = &pats[if ci % 2 == 0 { 1 } else { pats.len() - 2 }];
+                    for e in &engines {
+                        dec_event(ctx, e, ded, k, r, &orig, &rec, pat, &[0, k - 1, k]);
+                    }
+                }
+            }
+            continue;
+        }
+        ctx.group = Some(ci as i64);
         let orig = originals(ctx.seed, ctx.counter, k, sb);
         let mut lines = Vec::new();
         let mut rec0 = None;
@@ -843,15 +937,20 @@ fn family_c04(ctx: &mut Ctx) {
     let engines = ctx.engines.clone();
     let mut rng = util::rng(ctx.seed, 4);
     let mut sizes: Vec<usize> = if ctx.thorough { (1..=129).map(|x| x * 2).collect() } else { (1..=66).map(|x| x * 2).collect() };
-    sizes.extend(if ctx.thorough { vec![510, 1022, 4098] } else { vec![190, 254, 258] });
-    let cfgs: [(&str, usize, usize); 6] = [("high", 3, 2), ("low", 2, 3), ("high", 5, 2), ("low", 2, 5), ("high", 1, 1), ("low", 4, 4)];
+    // beyond one KiB: kernels that walk a shard in strips of several blocks
+    sizes.extend(if ctx.thorough { vec![510, 1022, 1026, 1150, 2050, 3000, 4098, 8190] } else { vec![190, 254, 258, 1026, 1150, 3000] });
+    let cfgs: [(&str, usize, usize); 9] = [("high", 3, 2), ("low", 2, 3), ("high", 5, 2), ("low", 2, 5), ("high", 1, 1), ("low", 4, 4), ("high", 40, 17), ("low", 17, 40), ("high", 9, 9)];
     for (si, sb) in sizes.iter().enumerate() {
-        let n = if ctx.thorough { 3 } else { 1 };
+        let n = if ctx.thorough { 6 } else { 2 };
         for t in 0..n {
             let (rate, k, r) = cfgs[(si + t * 2 + ctx.seed as usize) % cfgs.len()];
             let dr = ops::default_rate_of(k, r).unwrap_or("none");
-            let e = engines[(si + t) % engines.len()];
+            let e = engines[(si + t * 3 + ctx.seed as usize) % engines.len()];
             let kd = *ops::kinds_for(rate, dr, e).choose(&mut rng).unwrap();
+            // large sizes only with the small shapes (every slot is evaluated)
+            let (rate, k, r) = if *sb > 300 && k + r > 12 { ("high", 3, 2) } else { (rate, k, r) };
+            let dr = ops::default_rate_of(k, r).unwrap_or("none");
+            let kd = if k + r == 5 && rate == "high" { *ops::kinds_for(rate, dr, e).choose(&mut rng).unwrap() } else { kd };
             let orig = originals(ctx.seed, ctx.counter, k, *sb);
             // every slot of every recovery shard is evaluated by TLC
             let (_, rec) = enc_event(ctx, e, kd, k, r, &orig, None, true);
